@@ -44,6 +44,14 @@ def handle : List String → Option String
     let c := cost (normAxis a) shape h wq.length (fn wq) ptq (fun _ _ => 1) U
     pure (s!"{showBool (thinB shape a)} {showBool (feasibleB shape h (fn f) U)} | " ++
       showRats ((List.range (numFaces shape)).map U) ++ " | " ++ showRat c)
+  | "cert" :: rest => do
+    -- dual certificate: shape, voxel sizes, mass difference f, potential p (per cell), g (cell-major, dim per cell)
+    let ((shape, h, f, p, g), _) ← (do
+      let s ← P.list P.nat; let h ← P.list P.rat; let f ← P.list P.rat; let p ← P.list P.rat; let g ← P.list P.rat
+      pure (s, h, f, p, g)).run rest
+    let dim := shape.length
+    let gf : Nat → Nat → Rat := fun c a => if a < dim then g.getD (c * dim + a) 0 else 0
+    pure (s!"{showBool (certOK shape h (fn p) gf)} {showRat (certValue shape h (fn f) (fn p))}")
   | "emd" :: rest => do
     let ((v, dy, dx, dr, dc), _) ← (do
       let v ← P.rat; let dy ← P.rat; let dx ← P.rat; let dr ← P.int; let dc ← P.int; pure (v, dy, dx, dr, dc)).run rest
